@@ -331,7 +331,7 @@ for _p in ("C02", "C03", "C05", "C07", "C10", "C12"):
 
 # quick tier sized to roughly 15-30 s per property on 16 workers (measured; see evidence wall_s)
 for _p, _n in {"C01": 2400, "C02": 240, "C03": 6000, "C04": 3200, "C05": 12000, "C06": 480, "C07": 6000, "C08": 8000, "C09": 6400, "C10": 8000, "C11": 16000,
-               "C12": 12000, "C13": 1600, "C14": 800, "C15": 800, "C16": 8000, "C17": 2400, "C18": 16000, "C19": 3000}.items():
+               "C12": 12000, "C13": 1600, "C14": 600, "C15": 800, "C16": 8000, "C17": 2400, "C18": 16000, "C19": 3000}.items():
     PROPS[_p]["quick_runs"] = _n
 for _p in ("C02", "C03", "C05", "C07"):
     PROPS[_p]["passes"] = [{"variant": ""}, {"race": True, "variant": "race", "quick_runs": 120, "thorough_runs": 1200, "workers": 8, "quick_budget_s": 60}]
